@@ -15,12 +15,17 @@ component fails) versus lenient (`os.path.realpath`, non strict: such components
 appended lexically and `..` is applied to the text) and `follow` (whether a symbolic link in
 the last component is followed).  Recursion uses fuel (one unit per component step).
 
-`Cfg` selects the dispatch that exists (`Cfg.asIs`) or a repaired one (`Cfg.repaired`): the
-repairs are extra rejections in the filter and leave the rest of the code unchanged.
+`Cfg` selects the dispatch: `Cfg.current` is what the current source does (the flags come from
+`Generated/ConstsC08.lean`, regenerated from archive.py / utils.py / builder.py on every run),
+`Cfg.asIs` is the dispatch before commit 8ba1640 (only `_tarExtractFilter`), `Cfg.lexical` a repair
+that only normalises hard link names, `Cfg.repaired` all checks of `TarHelper.__checkMember`.
+The checks are extra rejections before `tar.extract`; the extraction code is the same for all.
 
 Not modelled (result `unsupported`, the run stops there): the fallback of `TarFile.makelink`
-that re-extracts another archive member, writes onto fifos, non-regular audit members,
-symbolic link loops seen by realpath.
+that re-extracts another archive member (except the frequent case "earlier regular member":
+`StreamError`), writes onto fifos, symbolic link loops seen by realpath.  Ownership and time
+stamps are not kept; `chown/chmod/utime` are one step that follows links and is skipped on
+failure.  Paths are absolute; the umask is 022.
 -/
 namespace TarExtract
 
